@@ -15,24 +15,30 @@ n = len(metas)
 missed = sum(1 for d in metas if d.get("history", "").startswith("missed"))
 text = """### 0.7 Seeded changes written by fresh sub-agents
 
-In four rounds, twenty sub-agents per round (one per property) were each given **only the text of their property** and a scratch git worktree
+In five rounds, twenty sub-agents per round (one per property) were each given **only the text of their property** and a scratch git worktree
 of `/repo` under `/tmp`, and asked for two realistic changes that break the property, still compile, keep the pinned test suite green, and
 need something specific to manifest, each with a demonstration script (the second round asked to look beyond the most obvious edit sites; the
 third asked that at least one of the two changes *adds* code - a fast path, a cache, a de-duplication step, a changed data structure, a change in
 a function the named mechanisms call - rather than editing an existing line; the fourth, after the rules had been restated on what the
 code computes (§0.2, §0.8), asked for one *small semantic slip* inside a named mechanism (swapped arguments, a weakened condition, the wrong variant
-in one arm, the wrong one of two similar locals, `any` for `all`) and one *restructuring that looks like a clean-up* but changes a corner case).
+in one arm, the wrong one of two similar locals, `any` for `all`) and one *restructuring that looks like a clean-up* but changes a corner case;
+the fifth, after collections had been brought to comprehension form (rules/comp.py), asked for one restructuring of code that *builds, filters,
+groups or walks a collection* (loop <-> iterator chain, `filter` + `map` -> `filter_map`, `entry()` API, a moved early exit, fused or split loops)
+and one small slip *outside* the obvious functions - in a helper, a collector, a `From` / `TryFrom` / `Display` impl, a constructor, a closure
+parameter, a format string).
 I confirmed every one of the %d changes in a scratch worktree (`tools/seeded.py confirm`: patch applies, crate builds, 140 + 1 tests pass with
 only the baseline UI failure, `demo.sh` exits 1 with the change and 0 without), then ran all 20 checks against each (`git -C /repo apply`,
 `./check Cxx`, `git -C /repo checkout -- .`). They are kept under `seeded/<id>/` (`patch.diff`, the demonstration with its inputs, the
 agent's `notes.md`, `meta.json`) and are part of the self-test catalogue of their property (`S-<id>`).
 
-**First runs: in rounds one and two 30 of 40 were reported by the check of their own property and 10 were not; in round three 7 of 40 and in
-round four 6 of %d were not** (%d of %d in total). Every miss was a
+**First runs: in rounds one and two 30 of 40 were reported by the check of their own property and 10 were not; in round three 7 of 40, in
+round four 6 of 40 and in round five 13 of 40 were not** (%d of %d in total; most of the round-five misses were slips in shared helpers -
+the sort a collector tags a variable with, a conversion impl, a traversal that skips one field - that the check of *another* property already
+caught). Every miss was a
 gap in a rule, not a limit of the technique, and each was closed by strengthening the rule (never by special-casing the change); after that
 all %d are reported by the check of their own property, %d of them as fail-closed analysis gaps rather than as a precise obligation:
 
-""" % (n, n - 120, missed, n, n, sum(1 for d in metas if "ANALYSIS-GAP" in d.get("history", ""))) + "\n".join(hist) + """
+""" % (n, missed, n, n, sum(1 for d in metas if "ANALYSIS-GAP" in d.get("history", ""))) + "\n".join(hist) + """
 
 Two reports of these runs were **false alarms of mine**: C18's floor on the *number of hash-container uses* fired on C11-1, which replaces a
 `HashMap` by an `IndexMap` (an improvement); and C14 / C15 fired on C06-4 (a change to the shared `fmt_unary` that only alters TPTP output)
